@@ -110,7 +110,10 @@ func c04Plans(tier string) []faultPlan {
 		}
 	}
 	for i := 0; i < fan; i++ {
-		out = append(out, mkPlan(i, "fanout", []string{"rsend-sticky", "cancelR", "cancelS", "srecv-sticky", "ssend-sticky", "rrecv-eof", "notify-backlog", "hasher-backlog", "cancelR-backlog", "teardown-backlog"}[i%10], 0, (i/10)%2))
+		pl := mkPlan(i, "fanout", []string{"rsend-sticky", "cancelR", "cancelS", "srecv-sticky", "ssend-sticky", "rrecv-eof", "notify-backlog", "hasher-backlog", "cancelR-backlog", "teardown-backlog"}[i%10], 0, (i/10)%2)
+		// every second block of twenty: the contexts outlive the transport
+		pl.KeepCtx = (i/20)%2 == 1
+		out = append(out, pl)
 	}
 	return out
 }
@@ -699,7 +702,7 @@ func c04Backlog(c *core.Ctx, r *core.Result, plan faultPlan) *core.Result {
 		}
 	}
 	_ = cbErr
-	cfg := wire.Config{Cap: []int{0, 8, 64}[plan.Tree%3]}
+	cfg := wire.Config{Cap: []int{0, 8, 64}[plan.Tree%3], TeardownKeepsContexts: plan.KeepCtx, StreamIgnoresContexts: plan.KeepCtx}
 	res := runSync(syncOpt{Cfg: cfg, Src: newSynthFS(src), Dest: dest, TeardownWhenStuck: true, Timeout: 90 * time.Second,
 		OnPair: func(p *wire.Pair) { pair = p },
 		Recv:   fsutil.ReceiveOpt{NotifyHashed: nrec.fn, ContentHasher: hs.fn}})
@@ -732,7 +735,7 @@ func c04Fanout(c *core.Ctx, r *core.Result, plan faultPlan) *core.Result {
 	var once sync.Once
 	open := func() { once.Do(func() { close(gateOpen) }) }
 	fired := atomic.Bool{}
-	cfg := wire.Config{Cap: []int{0, 2, 64}[plan.Tree%3]}
+	cfg := wire.Config{Cap: []int{0, 2, 64}[plan.Tree%3], TeardownKeepsContexts: plan.KeepCtx, StreamIgnoresContexts: plan.KeepCtx}
 	// the sender can hold 128 queued + 4 in its workers; the fault hits when
 	// the receiver has issued more requests than that
 	threshold := int64(133 + R.Intn(cfg.Cap+1))
